@@ -123,6 +123,8 @@ public:
   // scripted force: list of (colvar name, force) applied via colvar::add_bias_force
   std::vector<std::pair<std::string, double>> scripted_forces;
   bool scripted_force_error = false;
+  // script commands (argument vectors) executed inside the scripted-forces callback
+  std::vector<std::vector<std::string>> force_scripts;
 
   int backup_file(char const *filename) override;
   int remove_file(char const *filename) override;
